@@ -99,9 +99,15 @@ fn lzc_tables(line: &[u8]) -> (String, String, Vec<Vec<u8>>) {
     let mut pt: Vec<String> = Vec::new();
     let mut ft: Vec<String> = Vec::new();
     let mut toks: Vec<Vec<u8>> = Vec::new();
-    for chunk in data.split(|b| *b == b'\t') {
-        if chunk.len() >= 5 && chunk[3] == b'f' {
-            let tok = &chunk[5..];
+    // a field starts wherever the previous one ended, and a tag is ANY two bytes (a TAB included),
+    // so the value text is located by its `:f:` / `:B:f` marker, not by TAB-separated chunks
+    let upto_tab = |from: usize| -> &[u8] {
+        let end = data[from..].iter().position(|b| *b == b'\t').map(|k| from + k).unwrap_or(data.len());
+        &data[from..end]
+    };
+    for i in 0..data.len() {
+        if i >= 1 && i + 1 < data.len() && data[i - 1] == b':' && data[i] == b'f' && data[i + 1] == b':' {
+            let tok = upto_tab(i + 2);
             if let Some(b) = float_scalar(tok) {
                 let e = format!("{}:{b}", hex(tok));
                 if !pt.contains(&e) {
@@ -110,8 +116,9 @@ fn lzc_tables(line: &[u8]) -> (String, String, Vec<Vec<u8>>) {
             }
             toks.push(tok.to_vec());
         }
-        if chunk.len() >= 7 && chunk[3] == b'B' && chunk[5] == b'f' {
-            for tok in chunk[7..].split(|b| *b == b',') {
+        if i >= 1 && i + 2 < data.len() && data[i - 1] == b':' && data[i] == b'B' && data[i + 1] == b':' && data[i + 2] == b'f' {
+            let from = (i + 4).min(data.len());
+            for tok in upto_tab(from).split(|b| *b == b',') {
                 if let Some(b) = float_full(tok) {
                     let e = format!("{}:{b}", hex(tok));
                     if !ft.contains(&e) {
